@@ -16,6 +16,7 @@ package c04
 import (
 	"encoding/binary"
 	"fmt"
+	"math"
 	"net/netip"
 	"time"
 
@@ -44,7 +45,7 @@ func init() {
 		"c04.atk.unknown-user", "c04.atk.wrong-csid", "c04.atk.new-ssid", "c04.atk.exact-replay", "c04.atk.ahead-of-window",
 		"c04.cli.established", "c04.cli.change-accepted", "c04.cli.change-refused<60s", "c04.cli.old-session-accepted",
 		"c04.cli.old-session-replay-rejected", "c04.cli.forgotten-session-packet", "c04.cli.change-must-accept",
-		"c04.flt.isok-only",
+		"c04.flt.isok-only", "c04.mode.exhaustive6",
 	}
 	for _, w := range windowMenu {
 		probes = append(probes, fmt.Sprintf("c04.w.%d", w))
@@ -53,7 +54,7 @@ func init() {
 		ID:           "C04",
 		Run:          Run,
 		MaxSteps:     200000,
-		QuickRuns:    20000,
+		QuickRuns:    14000,
 		ThoroughSecs: 600,
 		Rule: "one run = one window size, key length, single/multi-user server, padding policies, one generated arrival history of 5-200 packet ids " +
 			"(boundary-biased: 0, 64-bit block edges, ring multiples, window edge, 2^64-1) that drives SlidingWindowFilter directly (Add and IsOk+MustAdd) and then " +
@@ -100,6 +101,8 @@ type peerSess struct {
 	source netip.AddrPort
 	sent   bool
 	throw  bool // attacker-only session id (never a genuine packet)
+	// ids of authentic packets with an acceptable timestamp, in arrival order
+	arrivals []uint64
 }
 
 type env struct {
@@ -261,6 +264,13 @@ func Run(s *simrt.Sim) {
 		return
 	}
 
+	// the arrival histories the receivers saw also drive the filter directly
+	for _, ps := range e.sessions {
+		if len(ps.arrivals) > 0 && !filterHistory(s, w, ps.arrivals) {
+			return
+		}
+	}
+
 	srcs := ""
 	for _, ps := range e.sessions {
 		if ps.real {
@@ -284,6 +294,23 @@ func Run(s *simrt.Sim) {
 
 // --- direct filter phase --------------------------------------------------------------------
 
+// filterCheck judges one verdict of a directly driven filter against the reference model.
+func filterCheck(s *simrt.Sim, w uint64, api string, m *sessModel, id uint64, got bool) bool {
+	exp, rel := m.judge(id)
+	switch {
+	case exp == mustReject && got:
+		s.Fail("c04.filter.delivered-twice{"+api+"}", "SlidingWindowFilter(size %d) %s accepted counter %d a second time (maximum accepted so far %d)", w, api, id, m.max)
+		return false
+	case exp == mustAccept && !got:
+		s.Fail("c04.filter.fresh-refused{"+rel+","+api+"}", "SlidingWindowFilter(size %d) %s refused counter %d which was never accepted and is %s (maximum accepted so far %d, has=%v)", w, api, id, rel, m.max, m.has)
+		return false
+	}
+	if got {
+		m.record(id)
+	}
+	return true
+}
+
 func filterPhase(s *simrt.Sim, w uint64, n int) {
 	s.Probe("c04.mode.filter")
 	mAdd, mOk := newSessModel(w), newSessModel(w)
@@ -293,21 +320,6 @@ func filterPhase(s *simrt.Sim, w uint64, n int) {
 	}
 	fAdd := ss2022.NewSlidingWindowFilter(w)
 	fOk := ss2022.NewSlidingWindowFilter(w)
-	check := func(api string, m *sessModel, id uint64, got bool) bool {
-		exp, rel := m.judge(id)
-		switch {
-		case exp == mustReject && got:
-			s.Fail("c04.filter.delivered-twice{"+api+"}", "SlidingWindowFilter(size %d) %s accepted counter %d a second time (maximum accepted so far %d)", w, api, id, m.max)
-			return false
-		case exp == mustAccept && !got:
-			s.Fail("c04.filter.fresh-refused{"+rel+","+api+"}", "SlidingWindowFilter(size %d) %s refused counter %d which was never accepted and is %s (maximum accepted so far %d, has=%v)", w, api, id, rel, m.max, m.has)
-			return false
-		}
-		if got {
-			m.record(id)
-		}
-		return true
-	}
 	for i := 0; i < n; i++ {
 		if s.GenChance(40) {
 			// a packet that passes IsOk but then fails authentication: no MustAdd
@@ -316,17 +328,117 @@ func filterPhase(s *simrt.Sim, w uint64, n int) {
 		}
 		id := g.next()
 		probeID(s, mAdd, id)
-		if !check("Add", mAdd, id, fAdd.Add(id)) {
+		if !filterCheck(s, w, "Add", mAdd, id, fAdd.Add(id)) {
 			return
 		}
 		ok := fOk.IsOk(id)
 		if ok {
 			fOk.MustAdd(id)
 		}
-		if !check("IsOk+MustAdd", mOk, id, ok) {
+		if !filterCheck(s, w, "IsOk+MustAdd", mOk, id, ok) {
 			return
 		}
 	}
+	if s.GenChance(20) {
+		filterExhaustive(s, w)
+	}
+}
+
+// filterHistory drives fresh filters with one arrival history.
+func filterHistory(s *simrt.Sim, w uint64, ids []uint64) bool {
+	mAdd, mOk := newSessModel(w), newSessModel(w)
+	fAdd := ss2022.NewSlidingWindowFilter(w)
+	fOk := ss2022.NewSlidingWindowFilter(w)
+	for _, id := range ids {
+		if !filterCheck(s, w, "Add", mAdd, id, fAdd.Add(id)) {
+			return false
+		}
+		ok := fOk.IsOk(id)
+		if ok {
+			fOk.MustAdd(id)
+		}
+		if !filterCheck(s, w, "IsOk+MustAdd", mOk, id, ok) {
+			return false
+		}
+	}
+	return true
+}
+
+// filterExhaustive enumerates every arrival order of length 6 over an alphabet of 6 (windows up
+// to 128) or 4 boundary ids: 46656 or 4096 histories; every shorter one is a prefix of them.
+func filterExhaustive(s *simrt.Sim, w uint64) {
+	s.Probe("c04.mode.exhaustive6")
+	ring := uint64(64)
+	for ring < w+63 {
+		ring *= 2
+	}
+	base := util.Pick(s, []uint64{0, 0, 1, 64, ring, ring - 1, 1 << 32, math.MaxUint64 - 2*ring - 2*w})
+	pool := []uint64{0, 1, 2, w - 1, w, w + 1, 62, 63, 64, 65, 2 * w, ring - 1, ring, ring + 1, 127, 128, 2*ring - 1, 2 * ring, ring + w, ring + w - 1}
+	// 6 symbols for small windows, 4 for the large ones (their ring clearing is ~30x dearer)
+	na := 6
+	if w > 128 {
+		na = 4
+	}
+	var alpha [6]uint64
+	for i := 0; i < na; {
+		x := base + pool[s.Choose(len(pool))]
+		dup := false
+		for j := 0; j < i; j++ {
+			dup = dup || alpha[j] == x
+		}
+		if !dup {
+			alpha[i] = x
+			i++
+		} else if s.GenChance(8) {
+			// the tape keeps proposing duplicates (a zeroed tape does): fill deterministically
+			alpha[i] = base + 3000 + uint64(i)
+			i++
+		}
+	}
+	const depth = 6
+	total := 1
+	for k := 0; k < depth; k++ {
+		total *= na
+	}
+	var seq [depth]int
+	for n := 0; n < total; n++ {
+		for k, v := 0, n; k < depth; k, v = k+1, v/na {
+			seq[k] = v % na
+		}
+		f := ss2022.NewSlidingWindowFilter(w)
+		var delivered [6]bool
+		has, mx := false, uint64(0)
+		for k := 0; k < depth; k++ {
+			id := alpha[seq[k]]
+			got := f.Add(id)
+			switch {
+			case delivered[seq[k]]:
+				if got {
+					s.Fail("c04.filter.delivered-twice{Add}", "SlidingWindowFilter(size %d): in the arrival order %v counter %d was accepted twice", w, describeSeq(alpha, seq[:k+1]), id)
+					return
+				}
+			case !has || id > mx || mx-id < w:
+				if !got {
+					s.Fail("c04.filter.fresh-refused{exhaustive,Add}", "SlidingWindowFilter(size %d): in the arrival order %v counter %d was refused although it was never accepted and is ahead of or fewer than %d behind the maximum %d", w, describeSeq(alpha, seq[:k+1]), id, w, mx)
+					return
+				}
+			}
+			if got {
+				delivered[seq[k]] = true
+				if !has || id > mx {
+					has, mx = true, id
+				}
+			}
+		}
+	}
+}
+
+func describeSeq(alpha [6]uint64, seq []int) []uint64 {
+	out := make([]uint64, len(seq))
+	for i, k := range seq {
+		out[i] = alpha[k]
+	}
+	return out
 }
 
 // --- transport ------------------------------------------------------------------------------
@@ -434,6 +546,9 @@ func (e *env) arrive(data []byte) {
 	// identity-header bytes altered in flight: the server reads them only when it opens a session
 	eihAltered := string(m.data) != string(data)
 	now := time.Now()
+	if m.authentic && tsClass(m.ts, now) == tsFresh {
+		m.sess.arrivals = append(m.sess.arrivals, m.id)
+	}
 	var exp expect
 	var class, why string
 	if e.client {
